@@ -307,8 +307,10 @@ func c09RunOpt(c *vt.Ctx, s c09Scenario, noGuard bool) {
 	if s.Stale {
 		staleRan = c09StaleStep(c, s, w, k, addr)
 	} else if s.LookupRace {
-		if x := c09LookupRaceStep(c, s, w, k, addr); x >= 0 {
-			staleRan = true
+		x, ran := c09LookupRaceStep(c, s, w, k, addr)
+		// a full GC pass ran inside the step (it is pass 0) even when the ADD was refused
+		staleRan = ran
+		if x >= 0 {
 			// x is a running pod with a fresh record from now on
 			s.Pods = append([]c09Pod(nil), s.Pods...)
 			s.Pods[x].Class = c09Running
@@ -578,8 +580,8 @@ func c09StaleStep(c *vt.Ctx, s c09Scenario, w *vsWorld, k *vsK8s, addr map[int][
 }
 
 // c09LookupRaceStep, see c09Scenario.LookupRace. Returns the index of the pod that was
-// re-created and successfully ADDed, or -1.
-func c09LookupRaceStep(c *vt.Ctx, s c09Scenario, w *vsWorld, k *vsK8s, addr map[int][2]string) int {
+// re-created and successfully ADDed, or -1, and whether a GC pass was executed.
+func c09LookupRaceStep(c *vt.Ctx, s c09Scenario, w *vsWorld, k *vsK8s, addr map[int][2]string) (int, bool) {
 	x := -1
 	for i, p := range s.Pods {
 		if p.Class == c09Absent && !p.Legacy && !p.NoRes && !p.RelFail {
@@ -588,7 +590,7 @@ func c09LookupRaceStep(c *vt.Ctx, s c09Scenario, w *vsWorld, k *vsK8s, addr map[
 		}
 	}
 	if x < 0 {
-		return -1
+		return -1, false
 	}
 	c.Label("lookup-race-step")
 	xkey := vsKey("ns", c09Name(x))
@@ -605,7 +607,7 @@ func c09LookupRaceStep(c *vt.Ctx, s c09Scenario, w *vsWorld, k *vsK8s, addr map[
 	select {
 	case <-g.parked:
 	case <-gcDone:
-		return -1 // GC did not look the pod up (e.g. it aborted earlier); an ordinary pass
+		return -1, true // GC did not look the pod up (e.g. it aborted earlier); an ordinary pass
 	case <-time.After(2 * time.Second):
 		c.Inconclusive("gc did not reach the API lookup")
 	}
@@ -649,7 +651,9 @@ func c09LookupRaceStep(c *vt.Ctx, s c09Scenario, w *vsWorld, k *vsK8s, addr map[
 		}
 	}
 	if o.err != nil {
-		return -1
+		c.Label("lookup-race:add-refused")
+		c.Trace("lookup-race: ADD for re-created pod refused: %v", o.err)
+		return -1, true
 	}
 	rec, ok := w.record(c09Name(x))
 	if !ok || rec.ContainerID == nil || *rec.ContainerID != newCid {
@@ -660,7 +664,7 @@ func c09LookupRaceStep(c *vt.Ctx, s c09Scenario, w *vsWorld, k *vsK8s, addr map[
 		c.Fatalf("ADD for re-created pod %s was acknowledged with %s, but after the concurrent GC pass the pool shows owner %q for it", c09Name(x), o.v4, owners[o.v4])
 	}
 	addr[x] = [2]string{o.v4, o.v6}
-	return x
+	return x, true
 }
 
 func TestVerifC09GC(t *testing.T) { vt.Run(t, c09Gen, c09Run) }
